@@ -57,7 +57,7 @@ RULE = (
     "older/same/newer mtime than the document file) and a leftover .tmp; a download script of up to 12 outcomes (ok, chunked, 206, "
     "403/404/500/503, short body, reset, chunked body cut mid-chunk, stalled read, wrong content of right length, wrong-size HTML page); "
     "optionally an earlier run of the same preparation that is killed after n file-system events (optionally with a torn write) or runs "
-    "to its end. Non-trivial = the run under test retried a download (>= 2 requests) or decompressed at least once, AND started from a "
+    "to its end; external decompressors: as installed (pigz only), plus stand-ins for pbzip2/pzstd, or none at all. Non-trivial = the run under test retried a download (>= 2 requests) or decompressed at least once, AND started from a "
     "non-pristine disk (some initial file present or an earlier run happened). Distinct = distinct canonical JSON. Enumerated "
     "sub-domain: every byte truncation of a complete offset table (2 entries quick, 3 thorough) and every crash point of fixed "
     "scenarios (each format x sizes declared/undeclared)."
@@ -93,13 +93,13 @@ DOC_NAME = "documents.json"
 TRACK_NAME = "c14track"
 CORPUS_NAME = "c14corpus"
 MAX_DECOMPRESSIONS = 4
-STALL_READ_TIMEOUT = 0.2
+STALL_READ_TIMEOUT = 0.15
 RETRIABLE = ("short", "cut-chunked", "stall")
 
 SIG_EMPTY = "empty-doc-accepted"  # F10
 SIG_TORN = "interrupted-offset-table-build-trusted"  # F11 (a)
 SIG_STALE = "stale-offset-table-trusted"  # F11 (b)
-SIG_PARTIAL = "partial-decompression-accepted"
+SIG_PARTIAL = "interrupted-decompression-output-accepted"
 
 _SERVER = None
 _URLLIB3_PROXY = None
@@ -414,7 +414,7 @@ def _weighted(*pairs):
 
 @st.composite
 def _segment(draw):
-    kind = draw(_weighted(("ok", 6), ("retry-ok", 8), ("boundary", 2), ("exhaust", 2), ("status", 4), ("corrupt", 4), ("garbage", 4), ("mixed", 4), ("stall", 1)))
+    kind = draw(_weighted(("ok", 6), ("retry-ok", 8), ("boundary", 2), ("exhaust", 2), ("status", 4), ("corrupt", 4), ("garbage", 4), ("mixed", 4), ("stall", 2)))
     faults = lambda lo, hi: [list(o) for o in draw(st.lists(_FAULT, min_size=lo, max_size=hi))]  # noqa: E731
     if kind == "ok":
         return [draw(_OK)]
@@ -483,7 +483,7 @@ def _case(draw):
 
     # what the preparation will have to do: fetch, work with local files, or whatever the free draws above give
     plan = draw(_weighted(("download", 5), ("local", 3), ("free", 2)))
-    last_crash_point = 9
+    last_crash_point = 11
     if plan == "download":
         offline = False
         if base_url == "absent":
@@ -502,10 +502,10 @@ def _case(draw):
     elif plan == "local":
         last_crash_point = 2  # only the offset table is written
         if draw(_weighted(("decompress", 2), ("use", 1))) == "decompress":
-            last_crash_point = 5
+            last_crash_point = 7
             if fmt == "plain":
                 fmt = draw(st.sampled_from(disk.FORMATS))
-            arch = draw(_weighted((["correct"], 6), (["corrupt"], 1)))
+            arch = draw(_weighted((["correct"], 5), (["corrupt"], 2), (["truncated", 700], 1), (["truncated", 1023], 1), (["longer", 3], 1)))
             if doc[0] == "correct":
                 doc = ["missing"]
             elif doc[0] != "missing":
@@ -820,9 +820,10 @@ def run_case(case, obs):
                 if data != published:
                     if len(data) == 0 and env.unc is None:
                         sig = SIG_EMPTY
-                    elif (env.unc is None and env.archive_name and published.startswith(data) and disk.count_lines(data) == env.lines
-                          and rep is not None and rep["status"] in ("crashed", "raised") and initial.get(doc_path, (None,))[1:] != after[doc_path][1:]):
-                        # what the killed / failed decompression of the earlier run left: a prefix that ends inside the last line
+                    elif (env.archive_name and rep is not None and rep["status"] in ("crashed", "raised") and doc_path in before
+                          and before[doc_path][2] == data and initial.get(doc_path, (None,))[1:] != before[doc_path][1:]):
+                        # the document file is what the killed / failed decompression of the earlier run left under the final name (a prefix
+                        # that ends inside the last line, or the unverified output of an external tool) and this run could not tell
                         sig = SIG_PARTIAL
                     elif table_kept and after[table_path][1] >= after[doc_path][1] and initial.get(table_path, (None,))[1:] == after[table_path][1:]:
                         sig = SIG_STALE  # a table that was there from the start is trusted, so the line count is never compared
